@@ -10,7 +10,7 @@
   The hand model the C01 / C19 theorems are about keeps only the occupancy map (`EventCore.chargingNet` on
   `String → Option Session`), so the ties are REFINEMENTS through the abstraction `occOf` (who occupies a station)
   and `stationsOf` (the registered ids): same outcome (done / `KeyError` / `StationOccupiedError`), same occupancy
-  afterwards, stations unchanged.  In particular the session-id guard of `unplug`: the EVSE is vacated exactly when
+  afterwards — also at a raise —, stations unchanged.  In particular the session-id guard of `unplug`: the EVSE is vacated exactly when
   its occupant has the given session id; a stale unplug event changes nothing; none of the translated
   `AttributeError` / inner `KeyError` paths is reachable.  `active_evs` is the filter `Sim.isActive` over the
   occupants in `_EVSEs` order and never raises.
